@@ -13,3 +13,16 @@ seeds=len(glob.glob('/verif/seeded/C*-[a-j]'))
 fixes=subprocess.check_output(['git','-C','/repo','log','--oneline']).decode().count(' fix:')
 kf=json.load(open('/verif/known_findings.json'))['findings']
 print(f"rules={len(rules)} obligations={obl} controls={ctl} (mutation {ctl-silent}, silent {silent}) seeds={seeds} fix_commits={fixes} fixed_entries={sum(1 for e in kf if e['kind']=='fixed')} known_constructs={sum(1 for e in kf if e['kind']=='known')}")
+import sys
+if '--patch' in sys.argv:
+    p='/verif/DESIGN.md'; s=open(p).read()
+    i=s.index('* Size of the machinery at the end of the build:'); j=s.index('\n* `devtest.sh',i)
+    new=(f"* Size of the machinery at the end of the build: 36 checks, {len(rules)} distinct rules, about {round(obl,-1):,} obligations on the unchanged\n"
+         f"  tree, {ctl} controls ({ctl-silent} mutation controls that must be reported, {silent} behaviour-preserving rewrites that must stay\n"
+         f"  silent), {seeds} independently written seeded changes kept under `seeded/` with their demonstration tests, {fixes} `fix:`\n"
+         f"  commits in /repo ({sum(1 for e in kf if e['kind']=='fixed')} `fixed` entries, one per property and construct they repair) and {sum(1 for e in kf if e['kind']=='known')} recorded known-finding\n"
+         f"  constructs (7 distinct defects) in `known_findings.json`, each with a reproduction under `repro/`.  `bin/vcheck -all` (all 36 on one load) takes under a minute on an idle machine; a\n"
+         f"  thorough run of one property 30–90 s on an idle machine (one reload of the program per control).\n")
+    s=s[:i]+new+s[j+1:]
+    open(p,'w').write(s)
+    print('patched')
